@@ -125,6 +125,18 @@ def library_programs():
               "def r = []; for x in $a do def p = 0; def q = 0; [p, q] = x; append(r, [p, q]) end; r", "[[y for y in x] for x in $a]", "[string(x) for x in $a]",
               "def r = []; for x in $a do append(r, [...x]) end; r", "def f(p, q, t...) [p, q]; [f(...x) for x in $a]", "[list(x) for x in $a]", "[sorted(x) for x in $a]",
               "[x[0] for x in [list(y) for y in $a]]", "def r = []; for x in values $a do append(r, list(x)) end; r"]
+    # enumeration whose ORDER is observable although the result is unordered: colliding map keys (the last entry wins),
+    # equal-but-distinguishable elements (1 / 1.0), effects of the element expression
+    sets = ["<< 'apple', 'avocado', 'apricot', 'banana', 'blueberry', 'cherry', 'cranberry', 'damson', 'dewberry', 'fig' >>",
+            "<<< 'pear' => 1, 'plum' => 2, 'peach' => 3, 'kiwi' => 4, 'lime' => 5 >>>"]
+    oforms = ["<<<substr(w, 0, 1) => w for w in $a >>>", "<<<length(w) => w for w in $a >>>", "<<<1 => w for w in $a >>>", "<<<w => 1 for w in $a if length(w) > 4>>>",
+              "def seen = []; def m = <<<w => append(seen, w) for w in $a >>>; seen", "def seen = []; def t = <<length(append(seen, w)) for w in $a >>; seen",
+              "def seen = []; def t = [append(seen, w) for w in $a ]; seen", "<<if length(w) > 4 then 1 else 1.0 for w in $a >>", "<<<length(w) % 2 => w for w in keys $a >>>",
+              "def last = NULL; for w in $a do last = w end; last", "def n = ''; for w in $a do if length(n) < 12 then n = n + w end; n",
+              "<<<length(w) => w for w in $a also for v in $a >>>", "first_q($a)".replace("first_q", "def f(s) do for w in s do return w end end; f")]
+    for a in sets:
+        for f in oforms:
+            progs.append(("def r0 = do %s end; [string(r0), r0]" % f.replace("$a", a), False))
     for a in nested:
         for f in dforms:
             progs.append(("def r0 = do %s end; [string(r0), r0]" % f.replace("$a", a), False))
